@@ -59,6 +59,8 @@ pub struct Out {
     pub evaluations: u64,
     pub nontrivial: std::collections::BTreeSet<String>,
     pub notes: Vec<String>,
+    /// model answers already computed (and post-processed) by the suite itself
+    pub model_out: Option<Vec<String>>,
 }
 
 impl Out {
@@ -102,6 +104,12 @@ impl Out {
         let mut f = std::io::BufWriter::new(std::fs::File::create(format!("{dir}/impl.txt")).unwrap());
         for c in &self.impl_out {
             writeln!(f, "{c}").unwrap();
+        }
+        if let Some(m) = &self.model_out {
+            let mut f = std::io::BufWriter::new(std::fs::File::create(format!("{dir}/model.txt")).unwrap());
+            for c in m {
+                writeln!(f, "{c}").unwrap();
+            }
         }
         let report = serde_json::json!({
             "evaluations": self.evaluations,
